@@ -46,77 +46,61 @@ def copyWords {ω} (wi : WImpl ω) : Nat → MemR W → ω → Nat → Res (MemR
       | .dpanic => .dpanic
     else .ok (back, w, n)
 
-/-- `BufBitReader::<BE>::copy_to` -/
-def copyToBE {ω} (checks : Bool) (wi : WImpl ω) (s : BufR W) (w : ω) (n : Nat) : Res (BufR W × ω) :=
-  let fromBuffer := min n s.bib
-  let buffer := s.buffer.rotateLeft fromBuffer
-  let v : BitVec 64 := buffer.setWidth 64
-  let v := if checks && decide (n < 64) then v &&& (((1 : BitVec 64) <<< n) - 1) else v
-  match wi.writeBits w v.toNat fromBuffer with
-  | .ok (_, w1) =>
-    let n := n - fromBuffer
-    if n = 0 then .ok ({ s with buffer := buffer, bib := s.bib - fromBuffer }, w1)
-    else
-      match copyWords wi n s.back w1 n with
-      | .ok (back, w2, n) =>
-        match back.readWord with
-        | .ok (word, back') =>
-          let bib := W - n
-          match wi.writeBits w2 ((word >>> bib).setWidth 64).toNat n with
-          | .ok (_, w3) =>
-            .ok ({ buffer := (word.setWidth (2 * W)).rotateRight (W - n), bib := bib, back := back' }, w3)
-          | .err e => .err e
-          | .panic => .panic
-          | .dpanic => .dpanic
-        | .err e => .err e
-        | .panic => .panic
-        | .dpanic => .dpanic
-      | .err e => .err e
+/-- the buffered part: `while from_buffer > 0 { k = min(from_buffer, 64); write_bits(read_bits(k)?, k)? }`
+    (`read_bits` takes its in-buffer path, the backend is not touched) -/
+def copyBuffered {ω} (e : Endian) (wi : WImpl ω) : Nat → BufR W → ω → Nat → Res (BufR W × ω)
+  | 0, s, w, fb => if fb = 0 then .ok (s, w) else .dpanic
+  | fuel + 1, s, w, fb =>
+    if fb = 0 then .ok (s, w) else
+    let k := min fb 64
+    match (BufR.impl e).readBits s k with
+    | .ok (v, s') =>
+      match wi.writeBits w v k with
+      | .ok (_, w') => copyBuffered e wi fuel s' w' (fb - k)
+      | .err er => .err er
       | .panic => .panic
       | .dpanic => .dpanic
-  | .err e => .err e
-  | .panic => .panic
-  | .dpanic => .dpanic
+    | .err er => .err er
+    | .panic => .panic
+    | .dpanic => .dpanic
 
-/-- `BufBitReader::<LE>::copy_to` -/
-def copyToLE {ω} (checks : Bool) (wi : WImpl ω) (s : BufR W) (w : ω) (n : Nat) : Res (BufR W × ω) :=
-  let fromBuffer := min n s.bib
-  let v : BitVec 64 := s.buffer.setWidth 64
-  let v := if checks && decide (n < 64) then v &&& (((1 : BitVec 64) <<< n) - 1) else v
-  match wi.writeBits w v.toNat fromBuffer with
-  | .ok (_, w1) =>
-    let buffer := s.buffer >>> fromBuffer
-    let n := n - fromBuffer
-    if n = 0 then .ok ({ s with buffer := buffer, bib := s.bib - fromBuffer }, w1)
-    else
-      match copyWords wi n s.back w1 n with
-      | .ok (back, w2, n) =>
-        match back.readWord with
-        | .ok (word, back') =>
-          let bib := W - n
-          let nw : BitVec 64 := word.setWidth 64
-          let nw := if checks && decide (n < 64) then nw &&& (((1 : BitVec 64) <<< n) - 1) else nw
-          match wi.writeBits w2 nw.toNat n with
-          | .ok (_, w3) =>
-            .ok ({ buffer := word.setWidth (2 * W) >>> n, bib := bib, back := back' }, w3)
-          | .err e => .err e
-          | .panic => .panic
-          | .dpanic => .dpanic
-        | .err e => .err e
-        | .panic => .panic
-        | .dpanic => .dpanic
-      | .err e => .err e
-      | .panic => .panic
-      | .dpanic => .dpanic
-  | .err e => .err e
-  | .panic => .panic
-  | .dpanic => .dpanic
-
+/-- `BufBitReader::copy_to` (BE and LE differ only in how the tail word is split). -/
 def copyTo {ω} (e : Endian) (checks : Bool) (wi : WImpl ω) (s : BufR W) (w : ω) (n : Nat) :
     Res (BufR W × ω) :=
-  match e with
-  | .be => copyToBE checks wi s w n
-  | .le => copyToLE checks wi s w n
+  let fromBuffer := min n s.bib
+  let n := n - fromBuffer
+  match copyBuffered e wi fromBuffer s w fromBuffer with
+  | .ok (s1, w1) =>
+    if n = 0 then .ok (s1, w1)
+    else
+      match copyWords wi n s1.back w1 n with
+      | .ok (back, w2, n) =>
+        match back.readWord with
+        | .ok (word, back') =>
+          let bib := W - n
+          let tailBits : BitVec 64 := match e with
+            | .be => (word >>> bib).setWidth 64
+            | .le =>
+              let nw : BitVec 64 := word.setWidth 64
+              if checks && decide (n < 64) then nw &&& (((1 : BitVec 64) <<< n) - 1) else nw
+          match wi.writeBits w2 tailBits.toNat n with
+          | .ok (_, w3) =>
+            let buffer : BitVec (2 * W) := match e with
+              | .be => (word.setWidth (2 * W) <<< (2 * W - bib - 1)) <<< 1
+              | .le => word.setWidth (2 * W) >>> n
+            .ok ({ buffer := buffer, bib := bib, back := back' }, w3)
+          | .err er => .err er
+          | .panic => .panic
+          | .dpanic => .dpanic
+        | .err er => .err er
+        | .panic => .panic
+        | .dpanic => .dpanic
+      | .err er => .err er
+      | .panic => .panic
+      | .dpanic => .dpanic
+  | .err er => .err er
+  | .panic => .panic
+  | .dpanic => .dpanic
 end BufR
 
 namespace BufW
@@ -145,7 +129,8 @@ def placed (e : Endian) (v : Nat) (n : Nat) : BitVec W :=
 
 /-- `BufBitWriter::copy_from` (both endiannesses share the shape; the LE one rotates). -/
 def copyFrom {ρ} (e : Endian) (ri : RImpl ρ) (s : BufW W) (r : ρ) (n : Nat) : Res (ρ × BufW W) :=
-  if n < s.space then
+  if W > 64 then copyGeneric ri (BufW.impl e) (n / 64 + 2) r s n     -- words wider than `read_bits` can return
+  else if n < s.space then
     match ri.readBits r n with
     | .ok (v, r') =>
       .ok (r', { s with buffer := shiftIn e s.buffer n ||| placed e v n, space := s.space - n })
